@@ -119,8 +119,8 @@ PROPS['C18'] = dict(
 )
 PROPS['C20'] = dict(
     prop_modules=['Vise.Props.C20', 'Vise.Props.C20Unwind'], lean_targets=['Vise.Props.C20', 'Vise.Props.C20Unwind'], suites=['engine'],
-    compare={'engine': eng(['x', 'c', 'f', 'o', 'fin', 'p', 'fl', 'fr', 'cd'])},
-    trusted=ENGINE_TRUSTED, assumptions=["engines without a `first` function (with one, blocked requests deliver the stale exit value: known finding)"],
+    compare={'engine': eng(['x', 'c', 'f', 'o', 'fin', 'p', 'fl', 'fr', 'cd', 'u', 'lv'])},
+    trusted=ENGINE_TRUSTED, assumptions=["the two-mode comparison is switched off for engines with a `first` function (it runs once per engine object by design); everything else applies to them as well"],
 )
 
 PROPS['C02'] = dict(
